@@ -499,6 +499,10 @@ func c12(w *core.World, r *core.Report) {
 		r.Check(ok, "TYPE-NAMES", core.Site(f, "no (nil, nil) return"), w.Pos(f.Pos()), "a conversion that yields neither a value nor an error drops the value silently")
 	}
 
+	// ---- DECIMAL-SIGN
+	r.Rule("DECIMAL-SIGN", 1, "rendering of decimal64: wherever an integer formatter (strconv.FormatInt, fmt.Sprintf, ...) receives a value that depends on Decimal64.Digits, it receives the whole number (no integer division / remainder in between) or the function tests the sign of Digits itself. A renderer that formats digits/10^p and |digits%10^p| separately drops the sign of every value in (-1,0). Structural necessary condition only; the digits themselves are not checked.")
+	ruleDecimalSign(w, r, "DECIMAL-SIGN")
+
 	// ---- DECIMAL-AGREE
 	r.Rule("DECIMAL-AGREE", 3, "every string -> decimal64 conversion goes through utils.ParseDecimal64 (sibling agreement): convertStringToTv, ConvertJsonValueToTv (through ConvertDecimal64), ConvertTypedValueToYANGType, ConvertDecimal64; no function of pkg/utils builds an sdcpb.Decimal64 literal from pieces of a split string elsewhere.")
 	for _, f := range w.RepoFns {
